@@ -13,7 +13,10 @@ import "fmt"
 type T struct {
 	X int
 	P *int
+	h int
 }
+
+func (t T) unexp() int { return t.h }
 
 type MyInt int
 type F func() int
@@ -108,6 +111,10 @@ CASES = [
     # accessibility (only differs when written in another package)
     ("unexported", "hidden", "int", ID, "unexported"),
     ("unexported-in-lit", "T{X: hidden}", "T", N("CompositeLit", ID, N("KeyValueExpr", ID, ID)), "unexported"),
+    ("unexported-field-key", "T{X: 1, h: 2}", "T", N("CompositeLit", ID, N("KeyValueExpr", ID, LIT), N("KeyValueExpr", ID, LIT)), "unexported"),
+    ("unexported-field-sel", "Val.h", "int", N("SelectorExpr", ID, ID), "unexported"),
+    ("unexported-method-value", "Val.unexp", "func() int", N("SelectorExpr", ID, ID), "unexported"),
+    ("unexported-method-expr", "T.unexp", "func(T) int", N("SelectorExpr", ID, ID), "unexported"),
 ]
 
 
@@ -123,7 +130,7 @@ def qualify(expr, names):
         w = m.group(0)
         prev = expr[:m.start()].rstrip()
         nxt = expr[m.end():].lstrip()
-        is_field = prev.endswith(".") or (nxt.startswith(":") and not nxt.startswith(":=") and w in ("X", "P", "A", "In"))
+        is_field = prev.endswith(".") or (nxt.startswith(":") and not nxt.startswith(":=") and w in ("X", "P", "A", "In", "h"))
         out.append("lib." + w if (w in names and not is_field) else w)
         i = m.end()
     out.append(expr[i:])
